@@ -32,7 +32,7 @@ REAL_VS_STUB = {'real': ['kyupy.sim.SimOps', 'kyupy.wave_sim (all kernels, host 
 ASSUMPTIONS = ['stimuli are exact 0.0/1.0 (CPU assign treats non-zero as 1, GPU assign thresholds at 0.5; outside {0,1} the property does not speak)',
                's[8]/s[9] with sd>0 are excluded as in the property\'s own observation list',
                'lane-position and lane-count pairs use one dataset or selection mode 0/1 (the default random mode seeds every lane differently by design)']
-EXPECTED_PROBES = ['lanes_in_mode2', 'pair_restore', 'pair_reuse', 'pair_strip', 'pair_gpu', 'pair_lanes', 'pair_k', 'pair_dataset', 'pair_logic', 'ppo2ppi_then_keep', 'k_lt_sims', 'multi_dataset']
+EXPECTED_PROBES = ['gpu_pair_restricted_in_later_batches', 'lanes_in_mode2', 'pair_restore', 'pair_reuse', 'pair_strip', 'pair_gpu', 'pair_lanes', 'pair_k', 'pair_dataset', 'pair_logic', 'ppo2ppi_then_keep', 'k_lt_sims', 'multi_dataset']
 
 
 def gen(rng, tier, i):
@@ -76,6 +76,7 @@ def gen(rng, tier, i):
         elif kind == 'gpu':
             s = {'mode': 'repo'} if rng.random() < 0.25 else wavegen.gen_order_sched(rng)
             pairs.append({'kind': 'gpu', 'sched': s, 'block': wavegen.gen_block(rng)})
+            if len(batches) > 1 and sims > 1 and rng.random() < 0.35: pairs[-1]['k_late'] = rng.randint(1, sims - 1)      # both paths restricted to k lanes in the later batches
         elif kind == 'lanes':
             n2 = rng.choice([sims, sims + 1, sims + 3, max(1, sims - 1), 9, 9, 33])
             if rng.random() < 0.03: n2 = 260      # beyond one byte of lane numbers, several thread blocks
@@ -214,6 +215,14 @@ def execute(case):
                 if not np.array_equal(a['abuf'], b['abuf']):
                     res.violate('gpu-path-changes-abuf', f'batch {bno}: abuf CPU {a["abuf"].tolist()} vs GPU {b["abuf"].tolist()}'); return res
             if not base['c_reuse'] and not cmp_memory(res, 'gpu-path-changes-memory', 'CPU vs GPU path', hA, A, h2, o2, ident): return res
+            if p.get('k_late') and len(case['batches']) > 1 and p['k_late'] < n:
+                # full propagation and capture, then propagation of the first k lanes and a capture (possibly at another time): the lanes beyond k
+                # keep their waveforms, and both code paths must report the same for every lane
+                late = {'k': p['k_late'], 'k_only_batches': list(range(1, len(case['batches'])))}
+                h5, o5 = wsim.run_config(built, case, dict(base, **late), res, monitors=())
+                h6, o6 = wsim.run_config(built, case, dict(cfgB, **late), res, monitors=())
+                res.probe('gpu_pair_restricted_in_later_batches')
+                if not cmp_ports(res, 'gpu-path-changes-result', f'CPU vs GPU path, c_prop(sims={p["k_late"]}) in the later batches', o5, o6, ident): return res
             if multi:
                 # several delay datasets in the default mode (2: a pseudo-random dataset per operation and lane, derived from the
                 # c_prop seed and the per-lane seed): the pick is a pure function of these, so both code paths must agree
